@@ -47,8 +47,14 @@ TARGETS = [
     Target('kss_write', KS, r'ssize_t write\(const void\* buf, size_t count\) override', rules=KSR),
     Target('kss_readv', KS, r'ssize_t readv\(const iovec\* iov, int iovcnt\) override', rules=KSR),
     Target('kss_writev', KS, r'ssize_t writev\(const iovec\* iov, int iovcnt\) override', rules=KSR),
+    Target('v_front', 'common/iovector.h', r'iovec& front\(\)   ', rules=[(r'return \*iov;', 'return &(*this->iov);', 1)]),
+    Target('v_pop_front', 'common/iovector.h', r'void pop_front\(\) ', rules=[fields_rule(['iov', 'iovcnt'])]),
+    Target('bsv_skip_empty', BS, r'void skip_empty\(int keep\) __INLINE__', rules=[(r'v\.iovcnt', 'this->v->iovcnt', 1), (r'v\.front\(\)\.iov_len', 'iovv_front(this->v)->iov_len', 1), (r'v\.pop_front\(\);', 'iovv_pop_front(this->v);', 1)],
+           marks={'count': 1, 0: dict(name='SK', frame=['this', 'view'], effects={'iovv_pop_front': ['this', 'view']}, pure=['iovv_front'])}),
+    Target('bsv_call', BS, r'bool operator\(\)\(size_t ret, size_t n\) __INLINE__ (?=\{\s*auto extracted = v\.extract_front)', rules=[
+        (r'v\.extract_front\(', 'iovv_extract_front(this->v, ', 1), (r'(?<![\w>.])skip_empty\(', 'BSV_skip_empty(this, ', 1), (r'v\.iovcnt', 'this->v->iovcnt', 1)]),
 ]
-UNITS = {'sock.c': 'sock.c.in', 'epoll2.c': 'epoll2.c.in', 'kstream.c': 'kstream.c.in'}
+UNITS = {'sock.c': 'sock.c.in', 'epoll2.c': 'epoll2.c.in', 'kstream.c': 'kstream.c.in', 'stepv.c': 'stepv.c.in'}
 PROOFS = [
     Proof('doio_once', 'sock.c', 'h_doio_once', kind='L', min_obligations=2),
     Proof('doio_loop', 'sock.c', 'h_doio_loop', kind='L', min_obligations=4, backend='cadical'),
@@ -56,11 +62,13 @@ PROOFS = [
     Proof('epoll/wait_for_fd', 'epoll2.c', 'h_wait_for_fd', kind='L', min_obligations=6),
     Proof('epoll/dispatch', 'epoll2.c', 'h_wait_for_events', kind='L', min_obligations=5),
     Proof('stream/one_deadline', 'kstream.c', 'h_kss', kind='L', min_obligations=3),
+    Proof('stepv/skip_empty', 'stepv.c', 'h_skip_empty', kind='L', min_obligations=4, backend='cadical'),
+    Proof('stepv/step', 'stepv.c', 'h_stepv', kind='L', min_obligations=4, backend='cadical'),
     Proof('epoll/rm_interest', 'sock.c', 'h_rm_interest', kind='L', min_obligations=4),
 ]
 NATIVES = []
 AUX_VIOLATION = True    # no native oracle: a failing loop-rule obligation is reported (no-failing-input-found), see DESIGN §4
 TRUSTED = ['cbmc 6.11.0', 'lowering rules of specs/C10/spec.py']
 NOT_DECIDED = ['exactly-once ordered bytes end to end (kernel sockets)', 'engine / scheduler interplay: a readiness event or timeout of one waiter never wakes or starves another',
-               'BufStepV (vectored step), the data-array wait_for_events overload, do_epoll_wait retry loop, epoll-ng / io_uring engines', 'timing of timeouts']
+               'the data-array wait_for_events overload, do_epoll_wait retry loop, epoll-ng / io_uring engines', 'timing of timeouts']
 ASSUMPTIONS = []
